@@ -179,6 +179,13 @@ def r_reserve_before_lower(rep, prog):
                 same = any(T.canon(x) == T.canon(rcall) for x in T.walk(row))
             rep.check(same, rule, key + "|same-tree", "allocates in the tree that was reserved (%s)" % rname.split("::")[-1],
                       "Lower::get allocates at %s, which is not derived from the reservation made by %s" % (T.show(row), rname), lt["span"])
+            # a function that receives the requested frame hands it on: the lower level then claims exactly that frame
+            fparams = [l_ for l_ in range(1, b.arg_count + 1) if b.local_name(l_) == "frame" and b.local_ty(l_).startswith("core::option::Option<")]
+            if fparams:
+                fa = T.canon(tm.operand(lt["args"][3]))
+                rep.check(fa == ("p", "frame"), rule, key + "|frame-forwarded", "the requested frame is passed to Lower::get",
+                          "%s receives the requested frame but calls Lower::get with %s: a targeted allocation returns some other free "
+                          "frame of the tree" % (b.name.split("::")[-1], T.show(tm.operand(lt["args"][3]))[:60]), lt["span"])
             # targeted: the reservation was filtered by the frame's tree
             fr = tm.operand(lt["args"][3])
             if not (fr[0] == "agg" and "None" in fr[1]):
@@ -351,5 +358,14 @@ def run(rep, programs):
         a = [ttm.operand(x) for x in ss[0][1]["args"]]
         good = T.const_val(a[2]) == 0 and T.canon(a[3]) in (("call", "llfree::trees::Trees::len", (("p", "self"),)),) or (
             T.const_val(a[2]) == 0 and a[3][0] == "call" and a[3][1] == "slice::len")
+    if len(ss) == 1:
+        ml = [l_ for l_ in range(1, tc.arg_count + 1) if tc.local_name(l_) == "matcher"]
+        pss = PathSens(tc, prog)
+        sts = pss.states_at(ss[0][0])
+        only_none = bool(ml) and bool(sts) and all(env.get(("d", ml[0], (".0",))) == 0 or env.get(("d", ml[0], ("f0",))) == 0 or
+                                                    any(k[0] == "d" and k[1] == ml[0] and v == 0 for k, v in env.items()) for _, env in sts)
+        rep.check(only_none, "R-CHANGE-GUARD", "Trees::change|search-only-without-id", "the match-based search runs only for requests without an id",
+                  "a request that names a tree id can fall into the match-based search (e.g. when the id is out of range): the change is "
+                  "applied to some other tree that matches class/free", ss[0][1]["span"])
     rep.check(good, "R-CHANGE-GUARD", "Trees::change|search-domain", "a change without id searches all trees: search(_, 0, self.len(), ..)",
               "Trees::change does not search the whole tree array (offset/len arguments changed)", tc.span)
